@@ -59,7 +59,10 @@ def run_trees(chk, hb, sb, trees, catalogue, workdir):
         for ti, tree in enumerate(trees):
             base = os.path.join(scratch, "t%d" % ti)
             os.makedirs(base)
-            a, b = os.path.join(base, "A"), os.path.join(base, "B")
+            # the analysed root is a directory whatever it is called: plain names, names that look like a contract
+            # (Foundry's out/Counter.sol/), dotted version names
+            ra, rb = [("A", "B"), ("Vault.sol", "B"), ("src", "Lib.sol"), ("v0.8", "pkg-1.2.0"), ("A", "Token.SOL")][ti % 5]
+            a, b = os.path.join(base, ra), os.path.join(base, rb)
             materialise(a, tree, cont, True)
             materialise(b, tree, cont, False)
             listing_differs = sorted(os.listdir(a)) == sorted(os.listdir(b)) and os.listdir(a) != os.listdir(b)
